@@ -113,7 +113,12 @@ class History:
             if k == "ADV":
                 self.now += int(ot[1])
             elif k == "CS" and code == "0":
-                self.sub_ackdl[rt[2]] = int(rt[4])
+                # the lease length the property promises (requested, at least 10 s; capped at the 600 s every
+                # implementation grants), not the value the server echoes
+                try:
+                    self.sub_ackdl[rt[2]] = max(10, min(int(ot[3]), 600))
+                except ValueError:
+                    self.sub_ackdl[rt[2]] = int(rt[4])
                 ev["sub"] = rt[2]
             elif k in ("PUB", "PUBN") and code == "0":
                 ev["ids"] = rt[3:3 + int(rt[2])]
